@@ -80,6 +80,16 @@ def check_state(y, m, d, n, w, doy, prev_year=None):
             out.append(("doy2date", "doy2date(%d,%d) = %r, model %r" % (y, doy, r, (y, m, d))))
     except Exception as ex:
         out.append(("doy2date", "doy2date(%d,%d) raised %r" % (y, doy, ex)))
+    # the same day with a time of day: day of year <-> date in both directions on EVERY civil day
+    try:
+        r = Epoch.doy2date(y, doy + 0.75)
+        if (r[0], r[1]) != (y, m) or abs(r[2] - (d + 0.75)) > 1e-9:
+            out.append(("doy2date", "doy2date(%d,%r) = %r, model %r" % (y, doy + 0.75, r, (y, m, d + 0.75))))
+        g = Epoch.get_doy(y, m, d + 0.75)
+        if abs(g - (doy + 0.75)) > 1e-9:
+            out.append(("get_doy", "get_doy(%d,%d,%r) = %r, model %r" % (y, m, d + 0.75, g, doy + 0.75)))
+    except Exception as ex:
+        out.append(("doy2date", "doy2date / get_doy with a time of day raised %r at (%d,%d,%d)" % (ex, y, m, d)))
     try:
         e = Epoch(y, m, d)
         yr = e.year()
